@@ -9,6 +9,7 @@
 (***************************************************************************)
 EXTENDS AmmoProviderMC
 
+CONSTANT TraceCells     \* the table this tier must cover exactly (besides the random cells, id >= RandBase)
 VARIABLE l
 
 Trace == ndJsonDeserialize(IOEnv.VERIF_TRACE)
@@ -34,8 +35,8 @@ Off == l = 0 \/ O.skipped
 
 \* the recorded lines are exactly the cells of the matrix, once each
 Complete  == l # 0 \/ (/\ Cardinality({Trace[i].id : i \in 1..Len(Trace)}) = Len(Trace)
-                       /\ Len(Trace) = Cardinality(Cells))
-InMatrix  == l = 0 \/ (OC \in Cells /\ O.id = CaseOf(OC).id)
+                       /\ Cardinality({i \in 1..Len(Trace) : Trace[i].id < RandBase}) = Cardinality(TraceCells))
+InMatrix  == l = 0 \/ O.id >= RandBase \/ (OC \in TraceCells /\ O.id = IdOf(OC))
 \* the registered constructor accepted the config
 Built     == Off \/ O.build_err = ""
 \* exactly min over the non-zero bounds (or exactly the cut) was handed to the consumers
